@@ -477,12 +477,14 @@ fn run_line(t: &[&str]) -> String {
         if let Some(d) = o.dumps.get(k) {
             let mut mb = d.mb0.clone();
             mb.extend_from_slice(&d.mb1);
+            let irs = if d.ir.is_empty() { "-".to_string() } else { d.ir.join(",") };
             s.push_str(&format!(
-                " m0={} m1={} mb={} ir={}",
+                " m0={} m1={} mb={} irh={} ir={}",
                 d.mb0.len(),
                 d.mb1.len(),
                 if mb.is_empty() { "-".to_string() } else { hex(&mb) },
-                if d.ir.is_empty() { "-".to_string() } else { d.ir.join(",") }
+                hash_str(0, &irs),
+                irs
             ));
             at += mb.len();
         } else if let Some(r) = o.recs.get(k) {
@@ -517,9 +519,29 @@ fn run_line(t: &[&str]) -> String {
     s
 }
 
+/// `X <word_size> <word_id> <transform>`: the real dictionary word through the real
+/// TransformDictionaryWord (validates spec/IrReplay.v's dict_expand and the generated tables)
+fn expand(t: &[&str]) -> String {
+    use brotli_decompressor::dictionary::{kBrotliDictionary, kBrotliDictionaryOffsetsByLength, kBrotliDictionarySizeBitsByLength};
+    let ws: usize = t[1].parse().unwrap();
+    let id: usize = t[2].parse().unwrap();
+    let tr: usize = t[3].parse().unwrap();
+    if !(4..=24).contains(&ws) || tr >= 121 || id >= (1usize << kBrotliDictionarySizeBitsByLength[ws]) {
+        return "NONE".to_string();
+    }
+    let off = kBrotliDictionaryOffsetsByLength[ws] as usize + ws * id;
+    let mut dst = [0u8; 64];
+    let n = brotli::TransformDictionaryWord(&mut dst, &kBrotliDictionary[off..off + ws], ws as i32, tr as i32) as usize;
+    if n == 0 {
+        "-".to_string()
+    } else {
+        hex(&dst[..n])
+    }
+}
+
 fn main() {
     quiet_panics();
-    serve(|t| match guarded(AssertUnwindSafe(|| run_line(t))) {
+    serve(|t| match guarded(AssertUnwindSafe(|| if t[0] == "X" { expand(t) } else { run_line(t) })) {
         Ok(s) => s,
         Err(e) => format!("{} ## REPLAY=harness-panic", e),
     });
